@@ -25,6 +25,13 @@ UNITS2 = {
     'ConstexprSeq': (os.path.join(vlib.VERIF, 'harness/wrap_constexpr.c'), ['w_const_pop', 'w_const_lssb'], 32),
     'HexSeq': (os.path.join(vlib.REPO, 'librfn/hex.c'), ['hexchar', 'nibble'], 16),
     'RotencSeq': (os.path.join(vlib.REPO, 'librfn/rotenc.c'), ['rotenc_decode', 'rotenc_count14', 'rotenc_count'], 4),
+    # wavheader.c as a control skeleton with data: the pack functions, memcmp and memcpy are the environment (their calls, with the
+    # arguments and the conditions under which they are executed, are the reported trace); array members, constant tables and the
+    # local packer are identities (tags)
+    'WavSeq': (os.path.join(vlib.REPO, 'librfn/wavheader.c'),
+               ['rf_wavheader_init', 'rf_wavheader_set_num_frames', 'rf_wavheader_validate', 'rf_wavheader_encode', 'rf_wavheader_decode'], 1,
+               {'externs': ['rf_pack_init', 'rf_pack_remaining', 'rf_pack_bytes', 'rf_pack_u16le', 'rf_pack_u32le', 'rf_unpack_bytes',
+                            'rf_unpack_u16le', 'rf_unpack_u32le', 'memcmp', 'memcpy']}),
     # one iteration of the POSIX main loop; the clock, the scheduling pass and the sleep are the environment
     'MainLoopSeq': (os.path.join(vlib.VERIF, 'harness/wrap_mainloop.c'), ['fibre_scheduler_main_loop'], 1,
                     {'externs': ['time_now', 'fibre_scheduler_next', 'usleep'], 'flags': ['-I' + vlib.REPO]}),
